@@ -265,3 +265,7 @@ def run(pm, ctx):
     ctx.import_rules(pm, 'C08', {'C08-R2'}, 'C05-R6',
                      'validators return the value unchanged (Nullable delegates every non-null '
                      'value) so that what is encoded is what was set (shared with C08-R2)')
+
+    from ..conddrift import run_decisions
+    from ..ownership import OWN
+    run_decisions(pm, ctx, 'C05-RD', OWN['C05'])
